@@ -9,6 +9,8 @@ import Solvor.Cp.Theorems
 #print axioms Solvor.Cp.dfs_returns_solutions
 #print axioms Solvor.Cp.dfs_complete
 #print axioms Solvor.Cp.dfs_infeasible_iff
+#print axioms Solvor.Cp.dfs_enumerates_all
+#print axioms Solvor.Cp.dfs_order_independent
 #print axioms Solvor.Cp.choose_solver_total
 #print axioms Solvor.Cp.enc_linear
 #print axioms Solvor.Cp.encode_model_exact
